@@ -17,7 +17,8 @@
                                                              = n_j[m'][c'] n_i[m][c] . block(j,i)[m'][c'][m][c]  (i > j)
      two_symm_h_cart_entry  same with i < j direct and i >= j conj(mirrored)
      two_asymm_cart_entry   every block direct
-     asymm_is_offdiag_block_cart (in AssembledOverlapP.v)  *)
+     asymm_is_offdiag_block_cart   two_asymm_integral b1 b2 = rows of b1 x columns of b2 of two_symm_integral (b1 ++ b2)
+   Spherical / mixed bases: Proofs/AssembledSphP.v; final transformation: Proofs/AssembledLincombP.v. *)
 From Coq Require Import List Arith Lia Bool.
 From GB Require Import Base.Field Base.FNum Base.Tables Base.Blocks Model.Shell Model.MomentInt
   Model.Spherical Model.Assembly Model.Overlap Model.DiffOp Model.OneBody
